@@ -393,6 +393,78 @@ class Expander:
             changed = True
         return changed
 
+    def unroll_literal_comprehensions(self, fn: ast.FunctionDef, mi=None) -> bool:
+        """`[E(x) for x in (a, b)]` -> `[E(a), E(b)]`, `sum(E(x) for x in (a, b))` -> `sum((E(a), E(b)))`: a comprehension over a literal
+        tuple / list (or a local bound once to one), without filter, is the display of its instances."""
+        stores, lits = {}, {}
+        for n in ast.walk(fn):
+            if isinstance(n, ast.Name) and isinstance(n.ctx, (ast.Store, ast.Del)):
+                stores[n.id] = stores.get(n.id, 0) + 1
+            if isinstance(n, ast.Assign) and len(n.targets) == 1 and isinstance(n.targets[0], ast.Name):
+                v_ = n.value
+                if isinstance(v_, ast.Call) and isinstance(v_.func, ast.Name) and v_.func.id in ("tuple", "list") and len(v_.args) == 1 and not v_.keywords and isinstance(v_.args[0], (ast.Tuple, ast.List)):
+                    v_ = v_.args[0]
+                if isinstance(v_, (ast.Tuple, ast.List)) and not any(isinstance(x, ast.Starred) for x in v_.elts):
+                    lits[n.targets[0].id] = v_
+        changed = False
+        params_ = {a.arg for a in fn.args.posonlyargs + fn.args.args + fn.args.kwonlyargs}
+
+        def pure(e_):
+            """Evaluating the element expression twice is harmless: names, constants, arithmetic, calls into jax / optax or on parameters."""
+            for c_ in ast.walk(e_):
+                if isinstance(c_, ast.Call):
+                    f_ = c_.func
+                    root = f_
+                    while isinstance(root, (ast.Attribute, ast.Subscript, ast.Call)):
+                        root = root.func if isinstance(root, ast.Call) else root.value
+                    r_ = self.repo.resolve_expr(mi, f_) if (mi is not None and isinstance(f_, (ast.Name, ast.Attribute))) else None
+                    if r_ and r_.startswith(("jax.numpy.", "jax.nn.", "jax.lax.", "optax.", "jax.random.")):
+                        continue
+                    if isinstance(root, ast.Name) and root.id in params_ and not (isinstance(f_, ast.Attribute) and f_.attr in ("sample_batch", "integers", "uniform", "choice", "normal", "random", "permutation", "add_sample", "append", "pop", "update")):
+                        continue
+                    return False
+                if isinstance(c_, ast.Name) and isinstance(c_.ctx, ast.Load) and stores.get(c_.id, 0) > 1:
+                    return False
+            return True
+
+        class T(ast.NodeTransformer):
+            def _unroll(self_inner, c):
+                nonlocal changed
+                if len(c.generators) != 1:
+                    return None
+                g = c.generators[0]
+                it = g.iter
+                if isinstance(it, ast.Name) and it.id in lits and stores.get(it.id) == 1 and getattr(lits[it.id], "lineno", 0) <= getattr(c, "lineno", 0):
+                    elts_src = lits[it.id].elts
+                    if not all(pure(e_) for e_ in elts_src):
+                        return None
+                    it = lits[it.id]
+                if g.ifs or g.is_async or not isinstance(it, (ast.Tuple, ast.List)) or not it.elts or len(it.elts) > 6 or any(isinstance(x, ast.Starred) for x in it.elts):
+                    return None
+                out = []
+                for item in it.elts:
+                    if isinstance(g.target, ast.Name):
+                        sub = {g.target.id: item}
+                    elif isinstance(g.target, (ast.Tuple, ast.List)) and isinstance(item, (ast.Tuple, ast.List)) and len(item.elts) == len(g.target.elts) and all(isinstance(t, ast.Name) for t in g.target.elts):
+                        sub = {t.id: e_ for t, e_ in zip(g.target.elts, item.elts)}
+                    else:
+                        return None
+                    out.append(_Rename(sub).visit(clone(c.elt)))
+                changed = True
+                return out
+
+            def visit_ListComp(self_inner, c):
+                self_inner.generic_visit(c)
+                o = self_inner._unroll(c)
+                return c if o is None else ast.copy_location(ast.List(elts=o, ctx=ast.Load()), c)
+
+            def visit_GeneratorExp(self_inner, c):
+                self_inner.generic_visit(c)
+                o = self_inner._unroll(c)
+                return c if o is None else ast.copy_location(ast.Tuple(elts=o, ctx=ast.Load()), c)
+        T().visit(fn)
+        return changed
+
     @staticmethod
     def inline_local_lambdas(fn: ast.FunctionDef) -> bool:
         """`f = lambda x: E; ... f(a)` -> `(lambda x: E)(a)` when f is assigned exactly once in the function (then expanded like a helper)."""
@@ -521,6 +593,10 @@ class Expander:
         if self.inline_dynamic_dispatch(fn, mi):
             changed = True
             fn.body, ch = self._block(fn.body, mi, cls_qual, qual, stack + (qual,), 0)
+        for _ in range(3):
+            if not self.unroll_literal_comprehensions(fn, mi):
+                break
+            changed = True
         if changed:
             ast.fix_missing_locations(fn)
             for parent in ast.walk(fn):
